@@ -246,6 +246,13 @@ Definition sel_rr (c : config) : selector :=
 Definition sel_of (pol : N) (c : config) : selector :=
   if (pol =? 0)%N then sel_first c else sel_rr c.
 
+(* Randomised policies (Random, LeastConn with its random tie-break) are replayed from the choices
+   that were observed: the tape is indexed by the policy counter, so this is still ONE fixed
+   selection function of the state and every theorem about [reachable c sel] applies to it.
+   Whether each taped choice was a legal answer of the policy is checked by [oracle_ok]. *)
+Definition sel_tape (tape : list (option nat)) : selector :=
+  fun s => (nth (N.to_nat (robin s)) tape None, (robin s + 1)%N).
+
 (* =====================================================================================
    Correspondence cases
    ===================================================================================== *)
@@ -368,12 +375,34 @@ Definition snap_agrees (c : config) (s : state) (sn : list hsnap) : bool :=
              bool_eqb (down c s h) od && bool_eqb (full c s h) ofl)
           (combine (seq 0 (length sn)) sn).
 
-Fixpoint model_trace (c : config) (sel : selector) (s : state) (tr : list (hstep * ev * list hsnap)) : bool :=
+(* contract of the randomised policies on the state they read: Random returns some available
+   host, LeastConn an available host with the fewest connections, nil only when none is available *)
+Definition oracle_ok (pol : N) (c : config) (s : state) (e : ev) : bool :=
+  if (pol <? 2)%N then true else
+  match e with
+  | EvSel (Some h) =>
+      (h <? c_hosts c)%nat && available c s h &&
+      (if (pol =? 3)%N
+       then forallb (fun h' => negb (available c s h') || (conns s h <=? conns s h')) (seq 0 (c_hosts c))
+       else true)
+  | EvSel None => negb (existsb (available c s) (seq 0 (c_hosts c)))
+  | _ => true
+  end.
+
+Definition tape_of (tr : list (hstep * ev * list hsnap)) : list (option nat) :=
+  flat_map (fun x : hstep * ev * list hsnap =>
+              match x with
+              | (HSelect _, EvSel h, _) => [h]
+              | _ => []
+              end) tr.
+
+Fixpoint model_trace (pol : N) (c : config) (sel : selector) (s : state) (tr : list (hstep * ev * list hsnap)) : bool :=
   match tr with
   | [] => true
   | (h, e, sn) :: r =>
+      (match h with HSelect _ => oracle_ok pol c s e | _ => true end) &&
       match hexec c sel s h with
-      | Some (s', e') => ev_eqb e e' && snap_agrees c s' sn && model_trace c sel s' r
+      | Some (s', e') => ev_eqb e e' && snap_agrees c s' sn && model_trace pol c sel s' r
       | None => false
       end
   end.
@@ -484,7 +513,8 @@ Definition judge (c : case) : N :=
   | CSched hosts mc mf ft unh pol nthreads snap0 trace =>
       let cfg := mk_config hosts mc mf ft unh in
       let s0 := init_threads 0 nthreads in
-      let agree := snap_agrees cfg s0 snap0 && model_trace cfg (sel_of pol cfg) s0 trace in
+      let sel := if (pol <? 2)%N then sel_of pol cfg else sel_tape (tape_of trace) in
+      let agree := snap_agrees cfg s0 snap0 && model_trace pol cfg sel s0 trace in
       let b0 := {| b_fwd := []; b_log := []; b_now := 0; b_prev := snap0 |} in
       let spec := (length snap0 =? hosts)%nat && snap_spec mc mf ft unh b0 snap0 &&
                   spec_trace mc mf ft unh b0 trace in
